@@ -710,6 +710,14 @@ func writeOps() []wop {
 		}
 		return s.bs.WriteBitString(b)
 	}})
+	ops = append(ops, wop{name: "WriteBitString(13,source read before)", enc: func(seed int) rb.Bits { return valBits(seed, 4, 13) }, do: func(s *sut, seed int) error {
+		b := mkBS(valBits(seed, 4, 13), 13)
+		_, _ = b.ReadBits(5) // a consumer looked at the first bits of the nested string; the string is still the same value
+		if s.cell != nil {
+			return s.cell.WriteBitString(b)
+		}
+		return s.bs.WriteBitString(b)
+	}})
 	ops = append(ops, wop{name: "Append(21)", grow: true, enc: func(seed int) rb.Bits { return valBits(seed, 5, 21) }, do: func(s *sut, seed int) error {
 		s.bs.Append(mkBS(valBits(seed, 5, 21), 40))
 		return nil
@@ -1041,6 +1049,19 @@ func seqHarness(c *enum.Ctx, seed, wDepth, rDepth int) {
 				su = sut{bs: s.bs}
 			}
 			if !op.run(c, &su, m) {
+				// the read failed (or a failure was reported): a failed read returns an error "instead of inventing
+				// data" - and the bits that are there must still be readable as written, from the same position
+				if !c.Failed() && op.name != "ReadUnary" { // (a unary read is incremental by nature: it has to consume to find its end)
+					var avail int
+					if viaCell {
+						avail = s.cell.BitsAvailableForRead()
+					} else {
+						avail = s.bs.BitsAvailableForRead()
+					}
+					if avail != len(m.bits)-m.cur {
+						c.Fail("seq:"+op.name+":cursor-after-failed-read", "after the failing %s (ops %v): %d bits available, %d were unread before the call", op.name, steps, avail, len(m.bits)-m.cur)
+					}
+				}
 				break
 			}
 			var avail int
